@@ -204,9 +204,7 @@ impl<'a> Prog<'a> {
                         }
                     }
                     mi.assign(tgt, i.to_string(), scope);
-                    if g {
-                        src.push_str("\\global");
-                    }
+                    src.push_str(if g { form.prefixes.1 } else { form.prefixes.0 });
                     src.push_str(&(form.text)(i));
                     let ev = m.assign(tgt, new, scope);
                     flags.purge_depth_ge_2 |= ev.purge_depth_ge_2;
@@ -611,7 +609,9 @@ fn main() {
         let mut blocks = Blocks::new();
         let mut desc = vec![];
         for k in all.iter() {
-            let nf = k.targets[0].forms.len();
+            // at most the first three forms (set/\\advance/alias, \\def/\\gdef, …); the prefix-order forms of the
+            // macro kinds have their own family
+            let nf = k.targets[0].forms.len().min(if k.name.starts_with("macro") { 2 } else { 3 });
             if nf < 2 {
                 continue;
             }
@@ -743,6 +743,20 @@ fn main() {
             }
         }
         run_hist_family(&mut ctx, "kind-pairs", &format!("every unordered pair of kinds ({pairs} pairs, \\globaldefs is one of the kinds with the assignments =1, =-1, =0): every history of exactly {len6} ops over {{, }}, local/\\global assignment to a target of kind A, local/\\global to a target of kind B ({len10} ops for the 10-op alphabets with \\globaldefs)"), blocks, 9001);
+    }
+    // ---- (p) \\def with \\long / \\outer before, after and around \\global (TeX §1211: prefixes accumulate in any order)
+    {
+        let len = ctx.pick(4usize, 5usize);
+        let mut blocks = Blocks::new();
+        let mut nforms = 0;
+        for k in all.iter().filter(|k| k.name == "macro" || k.name == "macro-active") {
+            let forms: Vec<u8> = (0..k.targets[0].forms.len() as u8).filter(|f| !k.targets[0].forms[*f as usize].gdef).collect();
+            nforms = forms.len();
+            let tf: Vec<(u8, u8)> = forms.iter().map(|f| (0u8, *f)).collect();
+            let alpha = alphabet(&tf);
+            blocks.push(HistBlock { kinds: vec![k], targets: vec![(0, 0)], len, alpha: alpha.clone() }, pow(alpha.len(), len));
+        }
+        run_hist_family(&mut ctx, "prefix-order-histories", &format!("macro and macro-active: every history of exactly {len} ops over {{, }} and {nforms} forms of \\def (plain, \\long, \\outer, \\long…\\global, \\outer\\long…\\global, \\global\\long\\outer), each local and global ({} ops)", 2 + 2 * nforms), blocks, 5009);
     }
     // ---- (s) assignments that write the value that is already current ("unchanged => skip the save-stack work" shortcuts)
     let same_alpha = vec![Op::Open, Op::Close, Op::Assign { tgt: 0, f: 0, g: false }, Op::Assign { tgt: 0, f: 0, g: true }, Op::Assign { tgt: 0, f: SAME, g: false }, Op::Assign { tgt: 0, f: SAME, g: true }];
